@@ -16,6 +16,11 @@
                  than there are, `Relinearize` into a degree-0 receiver, and the unreachable degree
                  pattern of `tensorScaleInvariant`.  They are never emitted as tie lines.
 
+  What links a register to the ciphertext's RNS limbs is NOT in this file: the tie lines compare the model's
+  (level, degree, scale, decoded slots) with what the real decryptor + decoder return; Props/C05.lean gives the
+  algebra behind each slot operation as identities over any commutative ring (`phase_*`, `phase_mul_si`, with
+  `kSI_spec`: the `(−Q_ℓ)⁻¹` used here is the factor `round(t/Q·ct₀⊗ct₁)` leaves on the message).
+
   Core Lean only.
 -/
 namespace Lattigo.BGV
